@@ -139,6 +139,38 @@ def fixed_parameters(repo, res):
                                     f'{f.qualname}: `{unparse(c, 80)}` updates a sample without the fixed-parameter flags; update() then '
                                     f'resets geometry.fix to all-False and later isophotes (whose geometry is seeded from this one) are '
                                     f'fitted with every parameter free', {}))
+    # writer/reader table agreement: geometry.fix[i] masks harmonic i, which is corrected by _CORRECTORS[i]
+    fm = repo.get_module('photutils.isophote.fitter')
+    corr = [a_ for a_ in fm.tree.body if isinstance(a_, ast.Assign) and unparse(a_.targets[0], 0) == '_CORRECTORS']
+    if len(corr) != 1 or not isinstance(corr[0].value, ast.List):
+        raise AnalysisError('vanished anchor: fitter._CORRECTORS list')
+    slot_of = {'Position': 'fix_center', 'Angle': 'fix_pa', 'Ellipticity': 'fix_eps'}
+    slots = []
+    for e in corr[0].value.elts:
+        cname = unparse(e.func, 0) if isinstance(e, ast.Call) else unparse(e, 0)
+        hit = [v for k, v in slot_of.items() if k in cname]
+        if len(hit) != 1:
+            raise AnalysisError(f'_CORRECTORS entry {cname} not recognised')
+        slots.append(hit[0])
+    nfix = 0
+    for f in repo.functions.values():
+        if f.module.name not in MODS:
+            continue
+        for a_ in ast.walk(f.node):
+            if isinstance(a_, ast.Assign) and len(a_.targets) == 1 and isinstance(a_.targets[0], ast.Attribute) \
+                    and a_.targets[0].attr == 'fix' and isinstance(a_.value, ast.Call) and a_.value.args \
+                    and isinstance(a_.value.args[0], (ast.List, ast.Tuple)):
+                got = [unparse(x, 0) for x in a_.value.args[0].elts]
+                nfix += 1
+                ok = got == slots
+                res.oblige('T-SLOT', f'{f.qualname}: the fix flags are listed in the order of fitter._CORRECTORS', ok, nontrivial=True,
+                           sample={'function': f.fullname, 'flags': got, 'correctors': slots})
+                if not ok:
+                    res.add(Finding('T-SLOT', f.fullname, norm_stmt_text(a_), f'{f.module.relpath}:{a_.lineno}',
+                                    f'{f.qualname}: `{norm_stmt_text(a_)}` lists the fixed-parameter flags as {got}, but slot i masks the '
+                                    f'harmonic corrected by fitter._CORRECTORS[i] = {slots}: fix_pa freezes the ellipticity and vice versa', {}))
+    if nfix < 2:
+        raise AnalysisError('vanished anchor: fewer than two literal fix arrays (EllipseGeometry.__init__, Ellipse.fit_image)')
     # the harmonic chosen for correction is taken from the amplitudes masked by the fixed parameters
     f = repo.method('photutils.isophote.fitter.EllipseFitter', 'fit')
     src = ast.unparse(f.node)
@@ -189,6 +221,23 @@ def list_and_model(repo, res):
                        ('x = ' + nf_text('r * np.cos(phi + pa) + x0'), 'x along the ellipse'), ('y = ' + nf_text('r * np.sin(phi + pa) + y0'), 'y along the ellipse'),
                        (nf_text('result[j, i]') + ' Add= ' + nf_text('(intens + harm) * (1.0 - fy) * (1.0 - fx)'), 'bilinear deposit at [row j, column i]')):
         expect_stmt(res, 'SPEC', m, w, meaning)
+    # angular step: at most 0.75 pixel of arc (0.75 / r) so that no pixel on the ellipse is skipped
+    expect_stmt(res, 'SPEC', m, 'phi = ' + nf_text('max(phi + 0.75 / r, geometry._phi_min)'), 'next angle = phi + 0.75/r (three quarters of a pixel along the ellipse)')
+    expect_stmt(res, 'SPEC', m, 'r = ' + nf_text('max(geometry.radius(phi), 0.5)'), 'radius of the ellipse at the new angle')
+    # sibling deposits: every pixel that receives intensity*W receives the weight W
+    dep = {'result': {}, 'weight': {}}
+    for a_ in ast.walk(m.node):
+        if isinstance(a_, ast.AugAssign) and isinstance(a_.op, ast.Add) and isinstance(a_.target, ast.Subscript) \
+                and isinstance(a_.target.value, ast.Name) and a_.target.value.id in dep:
+            dep[a_.target.value.id][nf(a_.target.slice)] = a_.value
+    ok = len(dep['result']) == 4 and set(dep['result']) == set(dep['weight']) and \
+        all(nf(dep['result'][k]) == nf_text(f'(intens + harm) * ({ast.unparse(dep["weight"][k])})') for k in dep['result'])
+    res.oblige('SIB', 'build_ellipse_model: the four bilinear deposits of intensity and of weight use the same pixel and the same factor', ok,
+               nontrivial=True, sample={'pixels': sorted(dep['result'])})
+    if not ok:
+        res.add(Finding('SIB', m.fullname, 'bilinear deposits', m.loc,
+                        'build_ellipse_model: result[p] += (intens + harm) * W and weight[p] += W must pair up on the same four pixels with '
+                        'the same W; otherwise result/weight is not the interpolated intensity', {}))
 
 
 def run(repo, tier):
